@@ -110,6 +110,35 @@ Definition sort_uniq (l : list Z) : list Z := fold_right insert_sorted [] l.
 Definition get_enabled_uplink_data_rates (t : tables) : list Z :=
   sort_uniq (flat_map (fun c => zrange (ch_min c) (ch_max c)) (t_up t)).
 
+(* func (b *band) AddChannel(frequency, minDR, maxDR)  band.go:334-350: refused when the band
+   does not support extra channels; otherwise ONE channel value (custom, enabled unless the
+   frequency is 0) is appended to both the uplink and the downlink channels.  The DR range is
+   not validated by the code. *)
+Definition set_channels (t : tables) (u d : list channel) : tables :=
+  mkTables (t_extra t) (t_cfmin t) (t_cfmax t) (t_drs t) (t_maxpl t) (t_rx1 t) u d (t_txpow t).
+
+Definition add_channel (t : tables) (f mn mx : Z) : outcome tables :=
+  if negb (t_extra t) then Err
+  else let c := mkCh f mn mx (negb (f =? 0)) true in
+       Ok (set_channels t (t_up t ++ [c]) (t_down t ++ [c])).
+
+(* a history of AddChannel(f, minDR, maxDR) calls on one band object: the resulting tables
+   and, per call, whether it returned an error (a refused call leaves the object unchanged) *)
+Fixpoint add_channels (t : tables) (ops : list (Z * Z * Z)) : tables * list bool :=
+  match ops with
+  | [] => (t, [])
+  | (f, mn, mx) :: ops' =>
+    match add_channel t f mn mx with
+    | Ok t' => let r := add_channels t' ops' in (fst r, false :: snd r)
+    | _ => let r := add_channels t ops' in (fst r, true :: snd r)
+    end
+  end.
+
+(* the same band object with other tables (a band after a history of calls) *)
+Definition with_tables (c : band_cfg) (t : tables) : band_cfg :=
+  mkCfg (c_name c) (c_rep c) (c_dwell c) (c_kind c) (c_dwell400 c) (c_freq_off c) (c_bname c)
+        (c_defaults c) t.
+
 (* ---- per-band methods --------------------------------------------------- *)
 
 (* GetRX1DataRateIndex: as923Band overrides it (band_as923.go:52-78), every
